@@ -6,7 +6,8 @@
 //                                                                 exactly like the CLI's -v phys|virt)
 //        "ops":[{"op":"loadFile"|"preprocessFile"|"preprocessFileLineNumbers"|"execVM","path":".."},
 //               {"op":"include","path":"..","from":"/a/x","fromPhys":"r1/x"},
-//               {"op":"include2","from":"/a/x"}]}
+//               {"op":"include2","from":"/a/x"},
+//               {"op":"includePair","from":"/a/x","fromPhys":"r1/x","from2":"/b/y","fromPhys2":"r2/y"}]}
 // Every file below dir holds a unique token TOKEN_<...> naming its physical path (as SQF:
 // diag_log "TOKEN_.."), so the token that comes back names the file the operation acted on.
 //   loadFile / preprocessFile(LineNumbers): the token in the returned string
@@ -14,6 +15,12 @@
 //   include : preprocess the text  #include "<path>"  whose own pathinfo is the file `from`
 //   include2: preprocess the text  #include "<from>"  with an empty pathinfo; the file `from`
 //             (written by the orchestrator) contains  #include "<path>"  - nesting depth 2
+//   includePair: ONE preprocessor run over the text  #include "<from>" / #include "<from2>" ; both
+//             files (written by the orchestrator, in different directories) contain the same
+//             #include "<path>".  Emitted as two observations, ops "includeA" and "includeB":
+//             the token between the markers around each directive; if the run failed as a whole,
+//             NOTFOUND for the includer an IncludeFailed diagnostic names, else UNKNOWN
+//             (not observable - the orchestrator does not hand such an observation to TLC)
 // Each op is executed twice, on two independent VM instances (result / result2).
 // emits per op {"e":"Obs","k":i,"op":..,"result":"<token>"|"NOTFOUND"|"NOTOKEN"|"EXC","result2":..,
 //               "codes":[..],"exc":".."}
@@ -48,6 +55,7 @@ namespace
     struct outcome
     {
         std::string result;
+        std::string resultB;   // includePair: the second directive
         std::string exc;
         std::vector<long long> codes;
     };
@@ -101,6 +109,7 @@ namespace
             v.logger->all.clear();
             std::string kind = op.str("op");
             std::string token;
+            bool pair = false;
             try
             {
                 if (kind == "loadFile" || kind == "preprocessFile" || kind == "preprocessFileLineNumbers")
@@ -140,6 +149,37 @@ namespace
                     auto pp = rt.parser_preprocessor().preprocess(rt, text, pi);
                     if (pp.has_value()) { token = find_token(*pp); }
                 }
+                else if (kind == "includePair")
+                {
+                    std::string text = "VDMARKA\n#include \"" + op.str("from") + "\"\nVDMARKB\n#include \"" + op.str("from2") + "\"\nVDMARKC\n";
+                    auto pp = rt.parser_preprocessor().preprocess(rt, text, {});
+                    std::string dir = c.str("dir");
+                    auto failed_in = [&](const std::string& phys) {
+                        for (auto& d : v.logger->all)
+                        {
+                            if (d.code == code_include_failed && d.text.find("'" + dir + "/" + phys + "'") != std::string::npos) { return true; }
+                        }
+                        return false;
+                    };
+                    if (pp.has_value())
+                    {
+                        auto a = pp->find("VDMARKA"), b = pp->find("VDMARKB"), e = pp->find("VDMARKC");
+                        if (a != std::string::npos && b != std::string::npos && e != std::string::npos && a < b && b < e)
+                        {
+                            auto ta = find_token(pp->substr(a, b - a));
+                            auto tb = find_token(pp->substr(b, e - b));
+                            o.result = ta.empty() ? "NOTOKEN" : ta;
+                            o.resultB = tb.empty() ? "NOTOKEN" : tb;
+                        }
+                        else { o.result = "UNKNOWN"; o.resultB = "UNKNOWN"; }
+                    }
+                    else
+                    {
+                        o.result = failed_in(op.str("fromPhys")) ? "NOTFOUND" : "UNKNOWN";
+                        o.resultB = failed_in(op.str("fromPhys2")) ? "NOTFOUND" : "UNKNOWN";
+                    }
+                    pair = true;
+                }
                 else
                 {
                     o.exc = "unknown op " + kind;
@@ -154,7 +194,9 @@ namespace
                 if (d.level <= 2 && seen.insert((long long)d.code).second) { o.codes.push_back((long long)d.code); }
                 if (d.code == code_file_not_found || d.code == code_include_failed) { notfound = true; }
             }
-            if (!token.empty()) { o.result = token; }
+            if (pair && o.exc.empty()) { /* results set above */ }
+            else if (pair) { o.result = "EXC"; o.resultB = "EXC"; }
+            else if (!token.empty()) { o.result = token; }
             else if (!o.exc.empty()) { o.result = "EXC"; }
             else if (notfound) { o.result = "NOTFOUND"; }
             else { o.result = "NOTOKEN"; }
@@ -181,9 +223,19 @@ static void cmd_vfs(const J& c)
         emit(s);
         auto r1 = a.run(op);
         auto r2 = b.run(op);
-        J o = ev("Obs");
         J codes = J::arr();
         for (auto x : r1.codes) { codes.push(x); }
+        if (op.str("op") == "includePair")
+        {
+            J oa = ev("Obs");
+            oa.set("k", (long long)k).set("op", "includeA").set("result", r1.result).set("result2", r2.result).set("codes", codes).set("exc", r1.exc);
+            emit(oa);
+            J ob = ev("Obs");
+            ob.set("k", (long long)k).set("op", "includeB").set("result", r1.resultB).set("result2", r2.resultB).set("codes", codes).set("exc", r1.exc);
+            emit(ob);
+            continue;
+        }
+        J o = ev("Obs");
         o.set("k", (long long)k).set("op", op.str("op")).set("result", r1.result).set("result2", r2.result)
             .set("codes", codes).set("exc", r1.exc);
         emit(o);
